@@ -613,6 +613,7 @@ func (s *Subscription) processCollectionEvent(event *rescache.ResourceEvent) {
 				// when calling sub.GetRPCResources, since we have no new
 				// resources to populate.
 				sub.indirectsent++
+				s.applyAddEvent(idx, v)
 				s.c.Send(rpc.NewEvent(s.rid, event.Event, rpc.AddEvent{Idx: idx, Value: v.RawMessage}))
 				return
 			}
@@ -628,6 +629,7 @@ func (s *Subscription) processCollectionEvent(event *rescache.ResourceEvent) {
 				}
 
 				r := sub.GetRPCResources(true)
+				s.applyAddEvent(idx, v)
 				s.c.Send(rpc.NewEvent(s.rid, event.Event, rpc.AddEvent{Idx: idx, Value: v.RawMessage, Resources: r}))
 				sub.ReleaseRPCResources()
 
@@ -637,11 +639,13 @@ func (s *Subscription) processCollectionEvent(event *rescache.ResourceEvent) {
 			fallthrough
 		case codec.ValueTypeSoftReference:
 			if s.c.ProtocolVersion() < versionSoftResourceReferenceAndDataValue {
+				s.applyAddEvent(idx, v)
 				s.c.Send(rpc.NewEvent(s.rid, event.Event, rpc.AddEvent{Idx: idx, Value: rescache.Legacy120Value(v)}))
 				break
 			}
 			fallthrough
 		case codec.ValueTypePrimitive:
+			s.applyAddEvent(idx, v)
 			s.c.Send(rpc.NewEvent(s.rid, event.Event, rpc.AddEvent{Idx: idx, Value: v.RawMessage}))
 		}
 
@@ -652,6 +656,7 @@ func (s *Subscription) processCollectionEvent(event *rescache.ResourceEvent) {
 		if v.Type == codec.ValueTypeReference {
 			s.removeReference(v.RID)
 		}
+		s.applyRemoveEvent(event.Idx)
 		s.c.Send(rpc.NewEvent(s.rid, event.Event, event.Payload))
 
 	case "delete":
@@ -703,6 +708,7 @@ func (s *Subscription) processModelEvent(event *rescache.ResourceEvent) {
 			for _, sub := range subs {
 				sub.indirectsent++
 			}
+			s.applyChangeEvent(ch)
 			// Legacy behavior
 			if s.c.ProtocolVersion() < versionSoftResourceReferenceAndDataValue {
 				s.c.Send(rpc.NewEvent(s.rid, event.Event, rpc.ChangeEvent{Values: rescache.Legacy120ValueMap(event.Changed)}))
@@ -734,11 +740,13 @@ func (s *Subscription) processModelEvent(event *rescache.ResourceEvent) {
 					for _, sub := range subs {
 						sub.populateResourcesLegacy(r, true)
 					}
+					s.applyChangeEvent(ch)
 					s.c.Send(rpc.NewEvent(s.rid, event.Event, rpc.ChangeEvent{Values: rescache.Legacy120ValueMap(event.Changed), Resources: r}))
 				} else {
 					for _, sub := range subs {
 						sub.populateResources(r, true)
 					}
+					s.applyChangeEvent(ch)
 					s.c.Send(rpc.NewEvent(s.rid, event.Event, rpc.ChangeEvent{Values: event.Changed, Resources: r}))
 				}
 				for _, sub := range subs {
@@ -755,6 +763,47 @@ func (s *Subscription) processModelEvent(event *rescache.ResourceEvent) {
 	default:
 		s.c.Send(rpc.NewEvent(s.rid, event.Event, event.Payload))
 	}
+}
+
+// applyAddEvent, applyRemoveEvent and applyChangeEvent keep the subscription's
+// copy of the resource in step with the events sent to the client, as the copy
+// is sent again in case the resource is unsent and later resent.
+func (s *Subscription) applyAddEvent(idx int, v codec.Value) {
+	old := s.collection.Values
+	if idx < 0 || idx > len(old) {
+		return
+	}
+	col := make([]codec.Value, len(old)+1)
+	copy(col, old[0:idx])
+	copy(col[idx+1:], old[idx:])
+	col[idx] = v
+	s.collection = &rescache.Collection{Values: col}
+}
+
+func (s *Subscription) applyRemoveEvent(idx int) {
+	old := s.collection.Values
+	if idx < 0 || idx >= len(old) {
+		return
+	}
+	col := make([]codec.Value, len(old)-1)
+	copy(col, old[0:idx])
+	copy(col[idx:], old[idx+1:])
+	s.collection = &rescache.Collection{Values: col}
+}
+
+func (s *Subscription) applyChangeEvent(ch map[string]codec.Value) {
+	vals := make(map[string]codec.Value, len(s.model.Values)+len(ch))
+	for k, v := range s.model.Values {
+		vals[k] = v
+	}
+	for k, v := range ch {
+		if v.Type == codec.ValueTypeDelete {
+			delete(vals, k)
+		} else {
+			vals[k] = v
+		}
+	}
+	s.model = &rescache.Model{Values: vals}
 }
 
 func (s *Subscription) handleReaccess(t *rescache.Throttle) {
